@@ -30,7 +30,7 @@ def tlbTypes : List (String × Codec) := [
   ("ValidatorInfo", validatorInfo), ("KeyExtBlkRef", keyExtBlkRef), ("KeyMaxLt", keyMaxLt),
   ("OldMcBlocksInfo", oldMcBlocksInfo), ("Counters", counters), ("CreatorStats", creatorStats),
   ("BlockCreateStats", blockCreateStats), ("ConfigParams", configParams), ("McStateExtra", mcStateExtra),
-  ("McBlockExtra", mcBlockExtra), ("ShardFees", shardFees), ("BlockExtra", blockExtra), ("Block", block)]
+  ("McBlockExtra", mcBlockExtra), ("ShardFees", shardFees), ("ShardStateUnsplit", shardStateUnsplit), ("ShardState", shardState), ("BlockExtra", blockExtra), ("Block", block)]
 
 def jsonStr (s : String) : String := "\"" ++ s ++ "\""
 
